@@ -4,7 +4,7 @@ use crate::env::*;
 use crate::gen::*;
 use crate::lang::same_expr;
 use crate::rng::Rng;
-use slac::environment::{Environment, FunctionResult};
+
 use slac::{check_boolean_result, check_variables_and_functions, execute, optimize, Expression as E, Operator as O, Value as V};
 
 fn nodes(e: &E) -> usize {
@@ -19,18 +19,18 @@ fn nodes(e: &E) -> usize {
 }
 fn is_lit(e: &E) -> bool { matches!(e, E::Literal { .. }) }
 /// the property's own notion of a constant-foldable node (C06), evaluated on the real environment
-fn foldable(env: &impl Environment, e: &E) -> bool {
+fn foldable(env: &EnvDesc, e: &E) -> bool {
     match e {
         E::Unary { right, .. } => is_lit(right),
         E::Binary { left, right, .. } => is_lit(left) && is_lit(right),
         E::Array { expressions } => expressions.iter().all(is_lit),
         E::Ternary { left, operator, .. } => *operator == O::TernaryCondition && is_lit(left),
         E::Call { name, params } => (name == "if_then" && params.len() == 3)
-            || (params.iter().all(is_lit) && matches!(env.function_exists(name, params.len()), FunctionResult::Exists { pure: true })),
+            || (params.iter().all(is_lit) && env.pure_within_arity(name, params.len())),
         _ => false,
     }
 }
-fn any_foldable(env: &impl Environment, e: &E) -> bool {
+fn any_foldable(env: &EnvDesc, e: &E) -> bool {
     if foldable(env, e) { return true; }
     match e {
         E::Unary { right, .. } => any_foldable(env, right),
@@ -62,10 +62,10 @@ pub fn run_opt(t: &mut Toks) -> Option<String> {
     let mut e2 = e.clone();
     let r = optimize(&env, &mut e2);
     let trace = env.trace();
-    let pur = env.all_pure_calls();
+    let pur = env.all_pure_calls(&d);
     let post = execute(&env.inner, &e2);
     let chk1 = check_variables_and_functions(&env.inner, &e2).is_ok();
-    let fold = any_foldable(&env.inner, &e2);
+    let fold = any_foldable(&d, &e2);
     let mut e3 = e2.clone();
     let idem = optimize(&env.inner, &mut e3).is_ok() && same_expr(&e2, &e3);
     let status = match &r { Ok(()) => "ok".to_string(), Err(err) => format!("err {}", show_err(err)) };
